@@ -189,7 +189,7 @@ PROPS["C01"] = dict(
         "third-party codecs enter the model as a finite table stored-unit -> plain-unit built with wow_mpq::compress",
         "the whole-archive theorems are about Model.Mpq's writer and reader (classic tables, header V1/V2); that these are "
         "what the Rust builder and reader do is established per run by the two-way correspondence on real archive bytes; "
-        "V3/V4 headers, HET/BET tables, attribute timestamps, user-data headers, sector checksums are not modelled",
+        "attribute timestamps, user-data headers and sector checksums are not modelled (the header of every version and both extended tables are modelled on their own: Model.C01Header, C01Bet, C01Het)",
         "archive_roundtrip's hypotheses: pairwise different (hash A, hash B) pairs of the names (what the format identifies a "
         "file by), files.length <= hashSize < 2^32-2, archive < 4 GiB, every stored unit either raw or a strictly shorter "
         "codec output that the codec table maps back and the ratio heuristics admit (D2 is exactly the failure of that clause)"],
@@ -318,6 +318,19 @@ EXTRA_RULE = {
  "C08": "patch entries (TPatchInfo + PTCH, flag set in the block table) inside chains: applied over the base, a failing patch is an error and never the base or the raw patch bytes. identity patches (result = base) applied to an altered, longer, shorter and empty base; after a patched read the history goes on (patch archive re-prioritised below the base, back, removed, re-added, chain cleared) and every answer follows the chain as it is now.",
  "C12": "the destination reserved beforehand as an EMPTY file (besides absent and holding earlier content).",
 }
+ROUND5 = {
+ "C01": "the archive header of every built archive through Model.C01Header (fields against the builder's request), every header field replaced by boundary values (sizes around each version's minimum, versions 0..5, shifts around the limit, table positions around the archive size, table sizes around the entry limits and non-powers of two), truncations at every field boundary, V3 headers announcing the V4 size; one archive in four carries name pairs that differ only in the case of a non-ASCII letter.",
+ "C02": "one reference-written archive in three is also read behind a 512- or 1024-byte foreign prefix (position-adjusted keys are relative to the archive's own start).",
+ "C05": "fields that belong together made hostile at once: (offset, size) entries of the BLP mipmap locator, adjacent (count, offset) pairs of model / skin / animation headers.",
+ "C07": "sources whose names differ only in the case of a non-ASCII letter (distinct files: the format folds ASCII only).",
+ "C08": "the file map and the listing after every step against Model.C08Read (c08map, c08list); patch entries that do not parse (signature / digest-block signature altered, cut inside the header) and three-level chains (base, patch, patch over patch; lower patch intact, unparseable, altered) against readFile of the model; two archives whose names differ only in the case of a non-ASCII letter under three priority orders.",
+ "C09": "two more generations at the same path: an archive without (listfile) and one whose external listfile names only every second member.",
+ "C16": "the header of every encoded file through Model.C16Header, every one of its first 28 bytes replaced by boundary values, truncations at every field boundary (header error classes are read from the parser's error context; a header the parser accepted but whose content it refused is counted, not compared).",
+ "C18": "file-id tables of 1..12 sections in well-formed files.",
+ "C19": "the bytes written by SFileGetArchiveName at every buffer size, by SFileGetFileName and into the find data for long, multi-byte and nested names against Model.C19Buf; a close-race phase: three threads open files and searches on an archive handle while a fourth closes it - nothing they obtained may be usable once SFileCloseArchive has returned.",
+}
+for _k, _v in ROUND5.items():
+    EXTRA_RULE[_k] = (EXTRA_RULE.get(_k, "") + " " + _v).strip()
 for _k, _v in EXTRA_RULE.items():
     _r = PROPS[_k]["rule"]
     PROPS[_k]["rule"] = (_r if isinstance(_r, str) else "".join(_r)) + " ALSO: " + _v
